@@ -1066,7 +1066,7 @@ pub async fn run_property(profile: &Profile, args: &Args) {
                 summary.nontrivial += 1;
             }
             // the Coq chain model covers the regime without purging (ids <= 2 * gp)
-            if out.first_orphan.is_none() && order.iter().all(|i| t.blocks[*i].id <= 2 * t.spec.gp) {
+            if (out.first_orphan.is_none() || std::env::var("VERIF_MODEL_ORPHANS").is_ok()) && order.iter().all(|i| t.blocks[*i].id <= 2 * t.spec.gp) {
                 coq_cases.push(format!("({}, {})", input, gal::nlllist(&out.rows)));
                 model_cases += 1;
             }
